@@ -48,7 +48,8 @@ class C14(Check):
             'DifferentialEvolution workers=1; thorough: workers=2 and -1} with small iteration budgets, as the history '
             'optimise -> undo -> optimise or optimise -> optimise (same optimizer) -> undo -> undo; bounds around the start '
             'value or with the start value exactly on a bound (a bound of exactly 0 for tilt/decentre/conic). Oracle: merit recomputed from operand values on a twin lens; variable round trip; '
-            'lens state vs result.x / result.fun; monotonicity; bounds; pickup relation; undo restores the serialised lens. '
+            'lens state vs result.x / result.fun; monotonicity; bounds (as given by the user, in the units of the value); pickup '
+            'relation; optional image-surface solve (ABCD of the read-back prescription); undo restores the serialised lens. '
             'Non-trivial: >=3 objective evaluations and a variable moved by > 1e-6. Distinct = distinct case hashes.')
     assumptions = ['"not worse than the start" is claimed for all front ends used here (scipy keeps x0 in the DE population and '
                    'as initial state of dual annealing; BFGS/L-BFGS-B/Nelder-Mead/TRF never return a worse point than x0)',
@@ -68,7 +69,8 @@ class C14(Check):
         return st.fixed_dictionaries(dict(spec=GL.lens_spec(OPT, min_surfs=2), operands=st.lists(operand, min_size=1, max_size=3),
                                           variables=st.lists(var, min_size=1, max_size=3), opt=st.sampled_from(opts),
                                           pickup=st.booleans(), second=st.sampled_from(OPTIMIZERS[:3]),
-                                          hist=st.sampled_from(['undo_then_optimise', 'twice_then_undo_undo'])))
+                                          hist=st.sampled_from(['undo_then_optimise', 'twice_then_undo_undo']),
+                                          solve=st.sampled_from([False, False, True])))
 
     def describe(self, case):
         s = case['spec']
@@ -111,7 +113,7 @@ class C14(Check):
             elif vt == 'conic':
                 cand = [k for k in range(1, K + 1) if spec['surfs'][k - 1]['R'] != GL.INF]
             elif vt == 'thickness':
-                cand = list(range(1, K + 1))
+                cand = list(range(1, K + 1 - (1 if self.solve_on else 0)))      # the last gap belongs to the solve
             elif vt == 'index':
                 cand = [k for k in range(1, K + 1) if spec['surfs'][k - 1]['mat']['kind'] == 'ideal']
                 kw['wavelength'] = w
@@ -176,6 +178,13 @@ class C14(Check):
                 pick = (src, tgt)
                 self.pick_tgt = tgt
                 out.cls('with_pickup')
+        # optionally a marginal-ray-height solve keeps the image surface at the paraxial focus (no pickup needed for it)
+        self.solve_on = bool(case.get('solve')) and spec['ap']['type'] == 'EPD' and \
+            not any(v['type'] in ('tilt', 'decenter') for v in case['variables']) and \
+            not any(q['dx'] or q['dy'] for q in spec['surfs'])
+        if self.solve_on:
+            o.solves.add('marginal_ray_height', K + 1, 0.0)
+            out.cls('with_solve')
         o.update()
         prob = self.make_problem(case, o, spec)
         if prob is None:
@@ -198,19 +207,22 @@ class C14(Check):
         out.close('merit_is_weighted_sum_of_squares', m0, self.recompute_merit(prob, twin), rtol=1e-9, atol=self.noise(m0))
         out.close('rss_is_sqrt_of_merit', float(prob.rss()), math.sqrt(m0), rtol=1e-12)
         # 2. variables are faithful handles
+        self.ref_bounds = {}
         for v in prob.variables:
             val = float(np.ravel(v.value)[0])
             b = v.bounds
             if v.min_val is not None:
                 lo = float(v.variable.scale(v.min_val)) if v.apply_scaling else float(v.min_val)
                 hi = float(v.variable.scale(v.max_val)) if v.apply_scaling else float(v.max_val)
-                out.close('bounds_in_units_of_value', [float(b[0]), float(b[1])], [lo, hi], rtol=1e-12, atol=1e-15,
-                          vtype=v.type, scaled=v.apply_scaling)
-                out.expect('start_value_within_bounds', min(b) - 1e-9 * (1 + abs(val)) <= val <= max(b) + 1e-9 * (1 + abs(val)),
-                           vtype=v.type, scaled=v.apply_scaling, value=val, bounds=[float(b[0]), float(b[1])])
+                self.ref_bounds[id(v)] = (min(lo, hi), max(lo, hi))
+                got_b = [math.nan if x is None else float(x) for x in b]
+                out.close('bounds_in_units_of_value', got_b, [lo, hi], rtol=1e-12, atol=1e-15,
+                          vtype=v.type, scaled=v.apply_scaling, reported=[None if x is None else float(x) for x in b])
+                out.expect('start_value_within_bounds', min(lo, hi) - 1e-9 * (1 + abs(val)) <= val <= max(lo, hi) + 1e-9 * (1 + abs(val)),
+                           vtype=v.type, scaled=v.apply_scaling, value=val, bounds=[lo, hi])
             v.update(val)
             out.close('variable_set_then_read', float(np.ravel(v.value)[0]), val, rtol=1e-12, atol=1e-15, vtype=v.type)
-        self.start_on_bound = any(v.min_val is not None and (float(np.ravel(v.value)[0]) in (float(v.bounds[0]), float(v.bounds[1])))
+        self.start_on_bound = any(id(v) in self.ref_bounds and float(np.ravel(v.value)[0]) in self.ref_bounds[id(v)]
                                   for v in prob.variables)
         snap0 = lens_state(o)
         x_start = [float(np.ravel(v.value)[0]) for v in prob.variables]
@@ -298,12 +310,14 @@ class C14(Check):
             # scipy's L-BFGS-B returns x0 together with the objective of a failed line-search point
             out.cls('scipy_abnormal_termination')
         if math.isfinite(m_now) and fun < 1e9 and not abnormal:
-            if name == 'dual_annealing' and m_now < fun:
+            if name == 'dual_annealing' and abs(m_now - fun) > 1e-7 * max(m_now, fun) + self.noise(max(m_now, fun)):
                 # the local search inside dual_annealing is L-BFGS-B, whose failed line searches hand back the objective
-                # of a neighbouring trial point without a message (same scipy behaviour as above): the lens is at
-                # result.x (clause lens_is_at_returned_solution) and is not worse than reported
+                # of a neighbouring trial point without a message (same scipy behaviour as above; seen in both
+                # directions, verified by recording the evaluations): the lens is at result.x (clause
+                # lens_is_at_returned_solution); the two objectives belong to neighbouring points of one line search
                 out.cls('scipy_inconsistent_pair_from_local_search')
-                out.ok('merit_reproduces_returned_objective' + tag)
+                out.close('merit_reproduces_returned_objective' + tag, m_now, fun, rtol=1e-3, atol=self.noise(max(m_now, fun)),
+                          opt=name, weakened='scipy line-search neighbour')
             else:
                 out.close('merit_reproduces_returned_objective' + tag, m_now, fun, rtol=1e-7, atol=self.noise(max(m_now, fun)), opt=name)
         if math.isfinite(m_now):
@@ -316,10 +330,19 @@ class C14(Check):
                        opt=name)
         for v, xv in zip(prob.variables, vals):
             if v.min_val is not None:
-                b = v.bounds
-                lo, hi = min(b), max(b)
+                # the bounds the user gave, in the units of the value (not what the library reports them to be)
+                lo, hi = self.ref_bounds[id(v)]
                 out.expect('within_bounds' + tag, lo - 1e-9 * (1 + abs(lo)) <= xv <= hi + 1e-9 * (1 + abs(hi)), value=xv,
                            bounds=[float(lo), float(hi)], vtype=v.type, opt=name)
+        if self.solve_on:
+            from vf.gen import samples as GS
+            ya, ua = GS.parax_from_optic(o).marginal('EPD', float(o.aperture.value))
+            ysc = max(1e-3, max(abs(float(v)) for v in ya))
+            usc = max(abs(float(v)) for v in ua) if len(ua) else 0.0
+            if not all(math.isfinite(float(v)) for v in ya) or abs(float(ua[-2])) <= 1e-6 * max(usc, ysc / self.Lsc):
+                out.cls('solve_undefined_for_a_collimated_beam')
+            else:
+                out.close('solve_satisfied_after_optimise' + tag, float(ya[-1]), 0.0, atol=1e-9 * max(ysc, 1.0), opt=name)
         if pick:
             sg = o.surface_group
             out.close('pickup_satisfied_after_optimise' + tag, float(sg.radii[pick[1]]), -float(sg.radii[pick[0]]),
